@@ -426,6 +426,13 @@ func (g *Gen) depBodies(b *BlockSpec, depth int) {
 		if g.chance(0.2) {
 			d.Body.HoverURL = "https://example.com/hover/" + fmt.Sprint(i)
 		}
+		if g.P.Odd && g.chance(0.25) {
+			// the dependent body makes the block targetable as a whole, with
+			// nested parts listed in no particular order
+			root := fmt.Sprintf("dtgt.%s%d", b.Type, i)
+			d.Body.TargetableAs = append(d.Body.TargetableAs, &TargetableSpec{Addr: root, Scope: g.pick(g.scopes), Type: "object({zone=string,id=string,arn=string})", Name: "dep targetable",
+				Nested: []*TargetableSpec{{Addr: root + ".zone", Type: "string"}, {Addr: root + ".id", Type: "string"}, {Addr: root + ".arn", Type: "string"}}})
+		}
 		// second level: a dependency-key attribute inside the dependent body
 		if g.chance(0.25) && len(d.Labels) > 0 {
 			used := map[string]bool{}
